@@ -259,6 +259,20 @@ pub fn c10(tier: &str, seed: u64) -> Vec<Case> {
         if class_of(&out) != "ok" { c = c.fail("isdn-without-subaddress", "an ISDN record without the optional sub-address (RFC 1183 3.2) is rejected".into()); }
         v.push(c);
     }
+    // the typed constructors: `A::from(Ipv4Addr)` / `AAAA::from(Ipv6Addr)` hold and write the address octets in network order
+    for k in 0..(if thorough { 2000 } else { 200 }) {
+        let x4: u32 = if k < 4 { [0u32, 1, 0x01020304, u32::MAX][k] } else { g.rng.int(32) as u32 };
+        let x6: u128 = if k < 4 { [0u128, 1, 0x20010db8_00000000_00000000_00000001, u128::MAX][k] } else { g.rng.int(128) };
+        let a = simple_dns::rdata::A::from(std::net::Ipv4Addr::from(x4));
+        let aaaa = simple_dns::rdata::AAAA::from(std::net::Ipv6Addr::from(x6));
+        let (mut b4, mut b6) = (vec![], vec![]);
+        let _ = verif::rdata_write(&RData::A(a.clone()), &mut b4);
+        let _ = verif::rdata_write(&RData::AAAA(aaaa.clone()), &mut b6);
+        let mut c = Case::oracle_only().tag("typed-constructors");
+        if a.address != x4 || b4 != x4.to_be_bytes() { c = c.fail("layout-written", format!("A::from({}) holds {:#x} and writes {:?}", std::net::Ipv4Addr::from(x4), a.address, b4)); }
+        if aaaa.address != x6 || b6 != x6.to_be_bytes() { c = c.fail("layout-written", format!("AAAA::from({}) holds {:#x} and writes {:?}", std::net::Ipv6Addr::from(x6), aaaa.address, b6)); }
+        v.push(c);
+    }
     // an NSEC value whose (distinct) windows are held in another order than the wire demands: serialising it yields the
     // canonical encoding all the same (RFC 4034 4.1.2: blocks in increasing numerical order)
     for k in 0..6u8 {
